@@ -895,6 +895,7 @@ func labelledContractObligations(prop, tier string) []emitObl {
 	targets := map[string]*regexp.Regexp{
 		"C07": regexp.MustCompile(`parser\.CppGenerator\)\.generateCodeForPacket$`),
 		"C01": regexp.MustCompile(`model\.NewConfiguration$`), // options -> Configuration: shared with C08
+		"C04": regexp.MustCompile(`PacketDslVisitorImpl\)\.VisitPacketDefinition$`),
 		"C05": regexp.MustCompile(`PacketDslVisitorImpl\)\.VisitMatchPair$`),
 		"C06": regexp.MustCompile(`PacketDslVisitorImpl\)\.(VisitCheckSumFieldDeclaration|VisitFieldDefinitionWithAttribute|VisitFieldDefinition|VisitMatchFieldDeclaration|VisitLengthFieldDeclaration|VisitInerObjectField|metaDataDeclarationToField)$`),
 	}
@@ -916,6 +917,8 @@ func labelledContractObligations(prop, tier string) []emitObl {
 			switch prop {
 			case "C07":
 				return true
+			case "C04":
+				return strings.Contains(o.Desc, "TragetField") || strings.Contains(o.Desc, "fieldMap[k]") || strings.Contains(o.Desc, "== lengthField")
 			case "C05":
 				return strings.Contains(o.Desc, "istokentext")
 			case "C06":
